@@ -110,6 +110,13 @@ func (f *impFn) assigned(nodes ...ast.Node) []string {
 				if se, ok := s.Fun.(*ast.SelectorExpr); ok && (se.Sel.Name == "Write" || se.Sel.Name == "Reset") {
 					set[rootOf(se.X)] = true
 				}
+				if se, ok := s.Fun.(*ast.SelectorExpr); ok {
+					if id, ok := se.X.(*ast.Ident); ok {
+						if t := f.lookup(id.Name); t != nil && (t.k == "elem" || (t.k == "bigint" && se.Sel.Name == "Neg")) {
+							set[id.Name] = true
+						}
+					}
+				}
 			}
 			return true
 		})
@@ -367,6 +374,21 @@ func (f *impFn) simple(s ast.Stmt, prev ast.Stmt, c *ictx) []string {
 				}
 			}
 		}
+		if id, ok := v.Lhs[0].(*ast.Ident); ok && v.Tok == token.ASSIGN {
+			if t := f.lookup(id.Name); t != nil && t.k == "bigint" {
+				if call, ok := v.Rhs[0].(*ast.CallExpr); ok && exprText(call.Fun) == "pool.BigInt.Get" && len(call.Args) == 0 {
+					if f.bigFresh == nil {
+						f.bigFresh = map[string]bool{}
+					}
+					if f.bigUninit == nil {
+						f.bigUninit = map[string]bool{}
+					}
+					f.bigFresh[id.Name], f.bigUninit[id.Name] = true, true
+					return []string{"let " + lname(id.Name) + " : Int := 0  -- pool.BigInt.Get(): a fresh scratch object (contents unspecified: checked to be set before it is read)"}
+				}
+				delete(f.bigFresh, id.Name)
+			}
+		}
 		lt := f.lhsType(v.Lhs[0], c)
 		es, et := f.expr(v.Rhs[0], lt, c)
 		if !et.eq(lt) {
@@ -395,6 +417,54 @@ func (f *impFn) simple(s ast.Stmt, prev ast.Stmt, c *ictx) []string {
 		call, ok := v.X.(*ast.CallExpr)
 		if !ok {
 			p.die(s, "expression statement")
+		}
+		if se, ok := call.Fun.(*ast.SelectorExpr); ok {
+			if id, ok := se.X.(*ast.Ident); ok {
+				if t := f.lookup(id.Name); t != nil && t.k == "elem" {
+					// field-level reading of the element primitives: the receiver gets the value of the operation on its
+					// (pointer) arguments; operands are read before the receiver is written (C01 limb level, C19)
+					arg := func(a ast.Expr) string {
+						if u, ok := a.(*ast.UnaryExpr); ok && u.Op == token.AND {
+							a = u.X
+						}
+						aid, ok := a.(*ast.Ident)
+						if !ok || f.lookup(aid.Name) == nil || f.lookup(aid.Name).k != "elem" {
+							p.die(a, "element argument (only z or &x)")
+						}
+						return lname(aid.Name)
+					}
+					var val string
+					switch {
+					case se.Sel.Name == "SetOne" && len(call.Args) == 0:
+						val = "one"
+					case se.Sel.Name == "Set" && len(call.Args) == 1:
+						val = arg(call.Args[0])
+					case se.Sel.Name == "Square" && len(call.Args) == 1:
+						val = "mul " + arg(call.Args[0]) + " " + arg(call.Args[0])
+					case se.Sel.Name == "Mul" && len(call.Args) == 2:
+						val = "mul " + arg(call.Args[0]) + " " + arg(call.Args[1])
+					case se.Sel.Name == "Inverse" && len(call.Args) == 1:
+						val = "inv " + arg(call.Args[0])
+					default:
+						p.die(s, "element method %s outside the subset", se.Sel.Name)
+					}
+					return []string{"let " + lname(id.Name) + " := " + val}
+				}
+				if t := f.lookup(id.Name); t != nil && t.k == "bigint" {
+					if se.Sel.Name == "Neg" && len(call.Args) == 1 {
+						if !f.bigFresh[id.Name] {
+							p.die(s, "%s.Neg(…) on a big.Int that is not known to be a fresh object (could be the caller's)", id.Name)
+						}
+						as, at := f.expr(call.Args[0], nil, c)
+						if at.k != "bigint" {
+							p.die(s, "Neg argument")
+						}
+						delete(f.bigUninit, id.Name)
+						return []string{"let " + lname(id.Name) + " := -" + parenImp(as)}
+					}
+					p.die(s, "big.Int method %s as a statement", se.Sel.Name)
+				}
+			}
 		}
 		if id, ok := call.Fun.(*ast.Ident); ok {
 			if t := f.lookup(id.Name); t != nil && t.k == "events" {
@@ -534,6 +604,7 @@ func (f *impFn) enter(k *kont, c *ictx, ind string) string {
 	}
 	f.popTo(k.depth)
 	f.nonNil = copySet(k.nonNil)
+	f.bigFresh = map[string]bool{}
 	if k.call != "" {
 		c.uses.or(k.uses)
 		return ind + k.call
@@ -551,6 +622,22 @@ func (f *impFn) seq(list []ast.Stmt, k *kont, c *ictx, ind string, prev ast.Stmt
 	s, rest := list[0], list[1:]
 	switch v := s.(type) {
 	case *ast.ReturnStmt:
+		if f.retSelf {
+			// `return z` or `return z.M(…)`: run the method on the receiver, the result is the receiver
+			if len(v.Results) != 1 {
+				p.die(s, "return arity")
+			}
+			if id, ok := v.Results[0].(*ast.Ident); ok && id.Name == f.recv {
+				return ind + c.ret("()")
+			}
+			if call, ok := v.Results[0].(*ast.CallExpr); ok {
+				if se, ok := call.Fun.(*ast.SelectorExpr); ok && exprText(se.X) == f.recv {
+					lines := f.simple(&ast.ExprStmt{X: call}, prev, c)
+					return indent(lines, ind) + "\n" + ind + c.ret("()")
+				}
+			}
+			p.die(s, "return of something else than the receiver")
+		}
 		if len(v.Results) != len(f.results) {
 			p.die(s, "return arity")
 		}
@@ -572,6 +659,10 @@ func (f *impFn) seq(list []ast.Stmt, k *kont, c *ictx, ind string, prev ast.Stmt
 	case *ast.RangeStmt:
 		return f.rangeStmt(v, rest, k, c, ind, top)
 	case *ast.DeferStmt:
+		if exprText(v.Call.Fun) == "pool.BigInt.Put" && len(v.Call.Args) == 1 {
+			// giving a scratch big.Int back to the pool at exit: no effect on the result
+			return ind + "-- defer pool.BigInt.Put(" + exprText(v.Call.Args[0]) + "): memory pool only\n" + f.seq(rest, k, c, ind, s, top)
+		}
 		if !top || c.inLoop {
 			p.die(s, "defer that is not at the top level of the function body")
 		}
@@ -951,7 +1042,11 @@ func (f *impFn) rangeStmt(v *ast.RangeStmt, rest []ast.Stmt, k *kont, c *ictx, i
 // the number of iterations is known at loop entry
 func (f *impFn) countingFuel(v *ast.ForStmt, c *ictx) string {
 	be, ok := v.Cond.(*ast.BinaryExpr)
-	if !ok || (be.Op != token.LSS && be.Op != token.LEQ) {
+	if !ok {
+		return ""
+	}
+	down := be.Op == token.GEQ || be.Op == token.GTR
+	if be.Op != token.LSS && be.Op != token.LEQ && !down {
 		return ""
 	}
 	id, ok := be.X.(*ast.Ident)
@@ -961,7 +1056,7 @@ func (f *impFn) countingFuel(v *ast.ForStmt, c *ictx) string {
 	incs, other := 0, false
 	isInc := func(s ast.Stmt) bool {
 		d, ok := s.(*ast.IncDecStmt)
-		return ok && d.Tok == token.INC && exprText(d.X) == id.Name
+		return ok && ((d.Tok == token.INC && !down) || (d.Tok == token.DEC && down)) && exprText(d.X) == id.Name
 	}
 	if v.Post != nil && isInc(v.Post) {
 		incs++
@@ -1002,8 +1097,14 @@ func (f *impFn) countingFuel(v *ast.ForStmt, c *ictx) string {
 		return ""
 	}
 	plus := ""
-	if be.Op == token.LEQ {
+	if be.Op == token.LEQ || be.Op == token.GEQ {
 		plus = " + 1"
+	}
+	if down {
+		if it.k != "int" {
+			return ""
+		}
+		return "(" + parenImp(is) + plus + " - " + parenImp(ns) + ").toNat"
 	}
 	if it.k == "uint64" {
 		return "(" + parenImp(ns) + plus + " - " + parenImp(is) + ")"
